@@ -61,6 +61,7 @@ def serialize_func(f, findex: dict[str, int]) -> dict[str, Any]:
     vid: dict[int, int] = {}
     bid: dict[int, int] = {}
     blocks: list[Any] = []
+    keep_alive: list[Any] = []     # synthetic value keys (ids must stay unique while the function is serialised)
 
     def V(v) -> int:
         k = vid.get(id(v))
@@ -129,15 +130,63 @@ def serialize_func(f, findex: dict[str, int]) -> dict[str, Any]:
             return base(o, regs=[bid[id(o.before_region.blocks[0])], bid[id(o.after_region.blocks[0])]])
         if n in ("scf.yield", "scf.condition"):
             return base(o)
+        if n == "affine.apply":
+            amap = o.map.data
+            if len(amap.results) != 1:
+                raise Unsupported("affine.apply with several results")
+            return base(o, w=64, p=amap.num_dims, k=affine_tree(amap.results[0]))
+        if n == "affine.yield":
+            return base(o, op="scf.yield")
+        if n == "affine.for":
+            # the loop of the affine dialect with constant single-result bound maps = scf.for over those constants
+            from xdsl.ir.affine import AffineConstantExpr
+
+            lbm, ubm = o.lowerBoundMap.data, o.upperBoundMap.data
+            if len(lbm.results) != 1 or len(ubm.results) != 1 or not isinstance(lbm.results[0], AffineConstantExpr) or not isinstance(ubm.results[0], AffineConstantExpr) \
+                    or o.lowerBoundOperands or o.upperBoundOperands:
+                raise Unsupported("affine.for with non-constant bounds")
+            cs = []
+            vids = []
+            for c in (lbm.results[0].value, ubm.results[0].value, o.step.value.data):
+                key = object()
+                keep_alive.append(key)
+                v = V(key)
+                vids.append(v)
+                cs.append({"op": "arith.constant", "a": [], "r": [v], "w": 64, "sw": 64, "p": 0, "k": limbs(c, 64), "succ": [], "regs": [], "callee": 0, "name": ""})
+            return cs + [base(o, op="scf.for", a=vids + [V(x) for x in o.inits], regs=[bid[id(o.body.blocks[0])]], sw=64)]
         if n in EFFECT_OPS and not o.results and not o.regions:
             for x in o.operands:
                 width_of(x.type)
             return base(o, op="effect", name=n)
         raise Unsupported(n)
 
-    return {"args": [V(a) for a in f.body.blocks[0].args],
-            "blocks": [{"args": [V(a) for a in b.args], "ops": [ser_op(o) for o in b.ops]} for b in blocks],
-            "nvals": max(1, len(vid))}
+    def ser_block(b):
+        out = []
+        for o in b.ops:
+            r = ser_op(o)
+            out.extend(r if isinstance(r, list) else [r])
+        return out
+
+    ser_blocks = [{"args": [V(a) for a in b.args], "ops": ser_block(b)} for b in blocks]
+    return {"args": [V(a) for a in f.body.blocks[0].args], "blocks": ser_blocks, "nvals": max(1, len(vid))}
+
+
+def affine_tree(e) -> dict[str, Any]:
+    """AffineExpr -> the tree AffEval of Machine.tla evaluates."""
+    from xdsl.ir.affine import AffineBinaryOpExpr, AffineBinaryOpKind, AffineConstantExpr, AffineDimExpr, AffineSymExpr
+
+    leaf = {"kind": "const", "v": limbs(0, 64), "l": {}, "r": {}}
+    if isinstance(e, AffineConstantExpr):
+        return dict(leaf, v=limbs(e.value, 64))
+    if isinstance(e, AffineDimExpr):
+        return dict(leaf, kind="dim", v=e.position + 1)
+    if isinstance(e, AffineSymExpr):
+        return dict(leaf, kind="sym", v=e.position + 1)
+    if isinstance(e, AffineBinaryOpExpr):
+        kind = {AffineBinaryOpKind.Add: "add", AffineBinaryOpKind.Mul: "mul", AffineBinaryOpKind.Mod: "mod", AffineBinaryOpKind.FloorDiv: "floordiv",
+                AffineBinaryOpKind.CeilDiv: "ceildiv"}[e.kind]
+        return {"kind": kind, "v": 0, "l": affine_tree(e.lhs), "r": affine_tree(e.rhs)}
+    raise Unsupported(f"affine expression {e}")
 
 
 def arg_widths(func_op) -> list[int]:
